@@ -1,34 +1,20 @@
-(* C09: the lost wake-ups, the wedged target and the re-queue cycle of the code as it is, as theorems about the
-   executable queued model (Model/Proto2Queue.v over Model/P2Inst.v), by evaluation of the concrete delivery orders of
-   Proofs/P2_QueueWitnessData.v. *)
+(* C09 on the executable queued model (Model/Proto2Queue.v over Model/P2Inst.v), by evaluation of the concrete
+   delivery orders of Proofs/P2_QueueWitnessData.v:
+     - the lost wake-up that is still open (SERIALIZABLE gates, F-02d),
+     - a livelock behind such a gate (F-22): everything pending is a pair of proposals that re-queue each other for ever,
+     - regression examples: the scenarios of the repaired lost wake-ups (F-02a dead_prev, F-02b initfail_successor,
+       F-02e sync_wakeup, commit_hidden_by_apply) and of the repaired wedged target (F-21) now end idle, at a fixed
+       point, with every transaction final,
+     - the hypotheses of the fixed-point theorem are satisfiable on a non-trivial reachable world. *)
 From stdpp Require Import gmap.
 From Coq Require Import NArith String.
 From OC Require Import Base.Bytes Model.P2Pure Model.Proto2 Model.P2Inst Model.Proto2Queue Model.P2QInst Proofs.P2_QueueWitnessData.
+From OC Require Import Proofs.P2Base Proofs.P2Phases Proofs.P2_Queue.
 Open Scope N_scope.
 
-(** * Signatures of the lost wake-ups (the shape of an enabled id in an idle world) *)
 Definition phis (o : option ph) (p : ph) : bool := bool_decide (o = Some p).
-(* a transaction waiting in INITIALIZING behind a transaction whose initialisation FAILED *)
-Definition sig_initfail_successor (w : Wd) (c : ctrl) : bool :=
-  match c with
-  | CtlTx i => match txs w !! i, txs w !! (i - 1) with
-               | Some T, Some T0 => phis (t_init T) Doing && is_none (t_validate T) && phis (t_init T0) Failed
-               | _, _ => false end
-  | _ => false end.
-(* a proposal that waits (validate, abort or apply gate) *)
-Definition p_waiting (P : Prop2) : bool :=
-  phis (p_apply P) Doing || (is_none (p_apply P) && phis (p_abort P) Doing)
-  || (is_none (p_apply P) && is_none (p_abort P) && is_none (p_commit P) && phis (p_validate P) Doing).
-(* ... behind a proposal that ended ABORTED or apply-FAILED *)
-Definition sig_dead_prev (w : Wd) (c : ctrl) : bool :=
-  match c with
-  | CtlProp (t, i) => match props w !! (t, i) with
-                      | Some P => p_waiting P && match props w !! (t, p_prev P) with
-                                                 | Some Q => dead_end Q
-                                                 | None => false end
-                      | None => false end
-  | _ => false end.
-(* a transaction parked at one of the three SERIALIZABLE gates *)
+
+(** * Signature of the open lost wake-up: a transaction parked at one of the three SERIALIZABLE gates *)
 Definition sig_serializable_gate (w : Wd) (c : ctrl) : bool :=
   match c with
   | CtlTx i => match txs w !! i with
@@ -37,51 +23,10 @@ Definition sig_serializable_gate (w : Wd) (c : ctrl) : bool :=
                             || phis (t_commit T) Done)
                | None => false end
   | _ => false end.
-(* a proposal in APPLYING whose predecessor is not a dead end: it waited for mastership / synchronisation *)
-Definition sig_sync_wakeup (w : Wd) (c : ctrl) : bool :=
-  match c with
-  | CtlProp (t, i) => match props w !! (t, i) with
-                      | Some P => phis (p_apply P) Doing && negb (sig_dead_prev w c)
-                      | None => false end
-  | _ => false end.
-(* a proposal in VALIDATING behind a committed proposal whose apply phase has been started *)
-Definition sig_commit_hidden_by_apply (w : Wd) (c : ctrl) : bool :=
-  match c with
-  | CtlProp (t, i) => match props w !! (t, i) with
-                      | Some P => is_none (p_apply P) && is_none (p_abort P) && is_none (p_commit P) && phis (p_validate P) Doing &&
-                                  match props w !! (t, p_prev P) with
-                                  | Some Q => phis (p_commit Q) Done && phis (p_apply Q) Doing
-                                  | None => false end
-                      | None => false end
-  | _ => false end.
 
 (* reachability in the executable queued model *)
-Definition q_reach (fx : fixes) (s : QWd) : Prop := exists ls, s = fold_left (q_step_fx fx) ls q_init.
-(* an idle world in which the id [c], of the given shape, still has something to do *)
-Definition lost_wakeup (fx : fixes) (shape : Wd -> ctrl -> bool) : Prop :=
-  exists (s : QWd) (c : ctrl), q_reach fx s /\ idle s = true /\ shape (qw s) c = true /\ fst (p2_reconcile o_quiet (qw s) c) <> [].
+Definition q_reach (s : QWd) : Prop := exists ls, s = q_run ls.
 
-Lemma lost_wakeup_by (shape : Wd -> ctrl -> bool) (ls : list QLabel) (c : ctrl) :
-  (let s := q_run ls in idle s && shape (qw s) c && negb (match fst (p2_reconcile o_quiet (qw s) c) with [] => true | _ => false end))%bool = true ->
-  lost_wakeup no_fixes shape.
-Proof.
-  cbv zeta. intros H. apply andb_prop in H. destruct H as [H H3]. apply andb_prop in H. destruct H as [H1 H2].
-  exists (q_run ls), c. split; [exists ls; reflexivity|]. split; [exact H1|]. split; [exact H2|].
-  intros E. rewrite E in H3. discriminate.
-Qed.
-
-Theorem lost_wakeup_initfail_successor : lost_wakeup no_fixes sig_initfail_successor.
-Proof. apply (lost_wakeup_by _ wit_initfail_successor (CtlTx 2)). vm_compute. reflexivity. Qed.
-Theorem lost_wakeup_dead_prev : lost_wakeup no_fixes sig_dead_prev.
-Proof. apply (lost_wakeup_by _ wit_dead_prev (CtlProp (1, 2))). vm_compute. reflexivity. Qed.
-Theorem lost_wakeup_serializable_gate : lost_wakeup no_fixes sig_serializable_gate.
-Proof. apply (lost_wakeup_by _ wit_serializable_gate (CtlTx 2)). vm_compute. reflexivity. Qed.
-Theorem lost_wakeup_sync_wakeup : lost_wakeup no_fixes sig_sync_wakeup.
-Proof. apply (lost_wakeup_by _ wit_sync_wakeup (CtlProp (1, 1))). vm_compute. reflexivity. Qed.
-Theorem lost_wakeup_commit_hidden_by_apply : lost_wakeup no_fixes sig_commit_hidden_by_apply.
-Proof. apply (lost_wakeup_by _ wit_commit_hidden_by_apply (CtlProp (1, 2))). vm_compute. reflexivity. Qed.
-
-(** * Progress fails: the wedged target *)
 Definition tx_finalb (T : Txn) : bool :=
   match t_state T with
   | TApplied => true
@@ -96,46 +41,93 @@ Definition connectedb (w : Wd) : bool :=
                      && negb (c_aterm (snd tc) <? c_term (snd tc)) && negb (bool_decide (c_state (snd tc) = CSynchronizing))
                      && negb (is_none (targets w !! (fst tc)))) (map_to_list (cfgs w)).
 Definition some_tx_not_final (w : Wd) : bool := existsb (fun it => negb (tx_finalb (snd it))) (map_to_list (txs w)).
+Definition all_tx_final (w : Wd) : bool := forallb (fun it => tx_finalb (snd it)) (map_to_list (txs w)).
+(* no stored id has anything to do under oracle [o] *)
+Definition quiescentb (o : oracle) (w : Wd) : bool :=
+  forallb (fun c => match fst (p2_reconcile o w c) with [] => true | _ => false end) (q_all_ctrls w).
 
-(* an idle fixed point with every target connected and a transaction that is not final - and will never be *)
-Definition deadlock (fx : fixes) : Prop :=
-  exists s : QWd, q_reach fx s /\ idle s = true /\ connectedb (qw s) = true /\ some_tx_not_final (qw s) = true /\ q_enabled o_quiet (qw s) = [].
-Theorem deadlock_wedged_target : deadlock no_fixes.
-Proof. exists (q_run wit_wedged_target). split; [exists wit_wedged_target; reflexivity|]. vm_compute. repeat split. Qed.
+(* an idle world, every target connected, in which the id [c], of the given shape, still has something to do *)
+Definition lost_wakeup (shape : Wd -> ctrl -> bool) : Prop :=
+  exists (s : QWd) (c : ctrl), q_reach s /\ idle s = true /\ connectedb (qw s) = true /\ shape (qw s) c = true /\
+                               fst (p2_reconcile o_quiet (qw s) c) <> [].
 
-(* two proposals that re-queue each other for ever (whatever the oracle), the first one's transaction having failed its apply *)
-Definition requeue_cycle (fx : fixes) : Prop :=
-  exists (s : QWd) (k1 k2 : N * N) (T : Txn),
-    q_reach fx s /\ txs (qw s) !! (snd k2) = Some T /\ t_apply T = Some Failed /\ connectedb (qw s) = true /\ forall o, p2_reconcile o (qw s) (CtlProp k1) = ([], RRequeueProp k2) /\ p2_reconcile o (qw s) (CtlProp k2) = ([], RRequeueProp k1).
-Theorem requeue_cycle_wedged_target : requeue_cycle no_fixes.
+Lemma lost_wakeup_by (shape : Wd -> ctrl -> bool) (ls : list QLabel) (c : ctrl) :
+  (let s := q_run ls in idle s && connectedb (qw s) && shape (qw s) c &&
+                        negb (match fst (p2_reconcile o_quiet (qw s) c) with [] => true | _ => false end))%bool = true ->
+  lost_wakeup shape.
 Proof.
-  exists (q_run wit_requeue_cycle), (2, 2), (2, 1).
-  destruct (txs (qw (q_run wit_requeue_cycle)) !! 1) as [T|] eqn:E; [|vm_compute in E; discriminate].
-  exists T. split; [exists wit_requeue_cycle; reflexivity|]. split; [exact E|].
-  split; [vm_compute in E; injection E as <-; reflexivity|]. split; [vm_compute; reflexivity|].
-  intros [pl v a ch ord]. vm_compute. split; reflexivity.
+  cbv zeta. intros H. apply andb_prop in H. destruct H as [H H4]. apply andb_prop in H. destruct H as [H H3].
+  apply andb_prop in H. destruct H as [H1 H2].
+  exists (q_run ls), c. split; [exists ls; reflexivity|]. split; [exact H1|]. split; [exact H2|]. split; [exact H3|].
+  intros E. rewrite E in H4. discriminate.
 Qed.
 
-(** * The hypotheses of the fixed-point theorem are satisfiable on a non-trivial reachable world:
-      the final world of [wit_wedged_target] (three transactions, two targets) is idle and the token invariant holds in it *)
-From OC Require Import Proofs.P2Base Proofs.P2Phases Proofs.P2_Queue.
-Definition inst_tokens (fx : fixes) (s : QWd) : Prop :=
-  tokens candidate candidate_rb rollback_of overlay commit_merge payload record_applied touched restore resync_payload doc_ok
-         stamp nil nil nil fx s.
-Lemma tokens_by_check (fx : fixes) (s : QWd) :
-  (forall o, forallb (fun c => match fst (p2_reconcile o (qw s) c) with [] => true | _ => false end) (q_all_ctrls (qw s)) = true) ->
-  inst_tokens fx s.
+Theorem lost_wakeup_serializable_gate : lost_wakeup sig_serializable_gate.
+Proof. apply (lost_wakeup_by _ wit_serializable_gate (CtlTx 2)). vm_compute. reflexivity. Qed.
+
+(** * The work queue need not drain: a livelock behind a SERIALIZABLE gate (F-02d + F-22) *)
+(* a reachable world, every target connected, a transaction not final, in which everything that is pending is a pair of
+   proposals whose reconciles - whatever the oracle - do nothing but re-queue each other: whatever is delivered from here
+   on, the world stays as it is and the queue never becomes empty *)
+Definition is_prop_id (k : N * N) (c : ctrl) : bool :=
+  match c with CtlProp (t, i) => (t =? fst k) && (i =? snd k) | _ => false end.
+Definition livelock : Prop :=
+  exists (s : QWd) (k1 k2 : N * N),
+    q_reach s /\ connectedb (qw s) = true /\ some_tx_not_final (qw s) = true /\ queue s <> [] /\
+    forallb (fun c => is_prop_id k1 c || is_prop_id k2 c) (queue s) = true /\ forall o,
+      p2_reconcile o (qw s) (CtlProp k1) = ([], RRequeueProp k2) /\ p2_reconcile o (qw s) (CtlProp k2) = ([], RRequeueProp k1).
+
+Lemma quiescent_all (w : Wd) : (forall o, quiescentb o w = true) -> forall o c, fst (p2_reconcile o w c) = [].
 Proof.
-  intros Hall c o He. exfalso. apply He.
+  intros Hall o c. destruct (fst (p2_reconcile o w c)) as [|e r] eqn:E; [reflexivity|exfalso].
+  assert (He : fst (p2_reconcile o w c) <> []) by (rewrite E; discriminate).
   pose proof (enabled_stored candidate candidate_rb rollback_of overlay commit_merge payload record_applied touched restore
-                             resync_payload doc_ok stamp nil nil nil o (qw s) c He) as Hin.
-  specialize (Hall o). rewrite forallb_forall in Hall. specialize (Hall c Hin).
-  unfold p2_reconcile in Hall. destruct (fst _); [reflexivity|discriminate].
+                             resync_payload doc_ok stamp nil nil nil o w c He) as Hin.
+  specialize (Hall o). unfold quiescentb in Hall. rewrite forallb_forall in Hall. specialize (Hall c Hin).
+  rewrite E in Hall. discriminate.
+Qed.
+
+Theorem livelock_behind_gate : livelock.
+Proof.
+  exists (q_run wit_livelock), (1, 3), (1, 2). split; [exists wit_livelock; reflexivity|].
+  split; [vm_compute; reflexivity|]. split; [vm_compute; reflexivity|]. split; [vm_compute; discriminate|].
+  split; [vm_compute; reflexivity|]. intros [pl v a ch ord]. vm_compute. split; reflexivity.
+Qed.
+
+(** * Regression examples: the repaired scenarios come to rest with every transaction final *)
+Definition ends_well (ls : list QLabel) : bool :=
+  let s := q_run ls in idle s && quiescentb o_quiet (qw s) && all_tx_final (qw s) && connectedb (qw s).
+(* Set rejected by the plugin, then a Set on the same target (F-02a) *)
+Example regression_dead_prev : ends_well reg_dead_prev = true.
+Proof. vm_compute. reflexivity. Qed.
+(* Set refused by the device, then a Set on the same target (F-02a, apply-FAILED predecessor) *)
+Example regression_apply_failed : ends_well reg_apply_failed = true.
+Proof. vm_compute. reflexivity. Qed.
+(* rollback of a missing index, then a Set (F-02b) *)
+Example regression_initfail_successor : ends_well reg_initfail_successor = true.
+Proof. vm_compute. reflexivity. Qed.
+(* Set and its rollback before the device ever connects, then it connects (F-02e) *)
+Example regression_sync_wakeup : ends_well reg_sync_wakeup = true.
+Proof. vm_compute. reflexivity. Qed.
+(* Set on {t1 refuses, t2 fine}, then a Set on t2 (F-21: the target used to be wedged) *)
+Example regression_partial_apply_failure : ends_well reg_partial_apply_failure = true.
+Proof. vm_compute. reflexivity. Qed.
+(* two Sets committed while the device is away, then it connects (commit_hidden_by_apply) *)
+Example regression_two_changes_offline : ends_well reg_two_changes_offline = true.
+Proof. vm_compute. reflexivity. Qed.
+
+(** * The hypotheses of the fixed-point theorem are satisfiable on a non-trivial reachable world *)
+Definition inst_tokens (s : QWd) : Prop :=
+  tokens candidate candidate_rb rollback_of overlay commit_merge payload record_applied touched restore resync_payload doc_ok
+         stamp nil nil nil s.
+Lemma tokens_by_check (s : QWd) : (forall o, quiescentb o (qw s) = true) -> inst_tokens s.
+Proof.
+  intros Hall c o He. exfalso. apply He. exact (quiescent_all (qw s) Hall o c).
 Qed.
 
 Example tokens_satisfiable :
-  exists s : QWd, q_reach no_fixes s /\ inst_tokens no_fixes s /\ idle s = true /\ some_tx_not_final (qw s) = true.
+  exists s : QWd, q_reach s /\ inst_tokens s /\ idle s = true /\ all_tx_final (qw s) = true /\ connectedb (qw s) = true.
 Proof.
-  exists (q_run wit_wedged_target). split; [exists wit_wedged_target; reflexivity|]. split; [|split; vm_compute; reflexivity].
+  exists (q_run reg_sync_wakeup). split; [exists reg_sync_wakeup; reflexivity|]. split; [|repeat split; vm_compute; reflexivity].
   apply tokens_by_check. intros [pl v a ch ord]. vm_compute. reflexivity.
 Qed.
